@@ -69,7 +69,7 @@ _DIMSE_TECH = ("TLA+ Dimse spec (fragmenter, arbitrary regrouping, reassembler) 
                "(S2C) and the observed PDV sequences and round trips are judged by the Trace_Dimse spec (C2S)")
 CHECKS["C15"] = ("model_checking", _DIMSE_TECH,
     "Data set lengths 0..9 (14 thorough) x maxima {0,7,8,9,10,13} with every regrouping of up to 7 PDVs, realistic sizes around exact multiples for maxima 1030/16382/0, in-memory and file-backed data sets, and the maximum chosen by the real DIMSE provider for every (own, peer) maximum x role: PDV list length, order, last flags, exact reassembly.",
-    "Trusted: C-STORE-RQ as carrier message; regrouping of long messages limited to fixed patterns.", "§6 C15", "dimse")
+    "Also: a fragmented message that follows a C-ECHO / C-CANCEL through the real receive_primitive (provider state between messages). Trusted: C-STORE-RQ as carrier message; regrouping of long messages limited to fixed patterns.", "§6 C15", "dimse")
 CHECKS["C16"] = ("model_checking", _DIMSE_TECH,
     "Fragmentation behaviours of C15 plus every message type x data-set state (absent, empty, odd, even) and the public send_* API with empty and non-empty data sets and the service classes' response paths, observed at a wire tap that re-assembles with the real decoder: data set announced iff data set fragments are sent, message completed by the receiver.",
     "Trusted: wire tap at dul.send_pdu; peer modelled by pynetdicom's own DIMSE decoder.", "§6 C16", "dimse")
@@ -80,7 +80,7 @@ CHECKS["C17"] = ("model_checking", _DIMSE_TECH,
 CHECKS["C19"] = ("model_checking",
     "TLA+ CtxGuard spec (peer chooses request kind and the context ids of command and data fragments; serve only on accepted contexts) model-checked by TLC; every case TLC enumerates is injected as real P-DATA primitives into the real DIMSE provider and served through the reactor path, the N-EVENT-REPORT thread path and the C-GET requestor's storage SCP (S2C); observations judged by the Trace_CtxGuard spec (C2S)",
     "All 12 request kinds x command context in {accepted, rejected with the same abstract syntax, another kind's accepted/rejected, never proposed 201/255, invalid 0/2/100} x data context in {same, accepted, rejected}: no handler call and no normal response unless the command set arrived on an accepted context.",
-    "Trusted: one emulated reactor iteration (get_msg -> _serve_request); transport cut at dul.send_pdu. A data fragment mislabelled with another id is observed (DRIFT), not judged.", "§6 C19", "ctxguard")
+    "Also: the accepted set as the real negotiation leaves it - a real requestor against a scripted acceptor that answers a context with every class of non-zero result (1-4 and reserved 5-255) and then sends a request on it. Trusted: one emulated reactor iteration (get_msg -> _serve_request); transport cut at dul.send_pdu. A data fragment mislabelled with another id is observed (DRIFT), not judged.", "§6 C19", "ctxguard")
 
 CHECKS["C24"] = ("model_checking",
     "TLA+ Scu spec (peer as environment: responses, undecodable identifiers, 0xB001, invalid / unexpected messages, sub-operation requests, silence) model-checked by TLC; every peer script TLC finds is played, through the real DIMSE decoder, to the real send_c_find/get/move iterators and the eight single-response send_* calls (S2C); yields, abort and the AE lock at every yield are judged by the Trace_Scu spec (C2S)",
@@ -103,12 +103,12 @@ CHECKS["C01"] = ("model_checking",
 CHECKS["C12"] = ("model_checking",
     "TLA+ Gen_Config (requestor/acceptor configuration space) enumerated by TLC and PduLayout's WellFormedRQ/WellFormedAC predicates; every configuration is given to the real AE.associate against a real acceptor on loopback and the A-ASSOCIATE-RQ/AC bytes actually sent are captured (S2C); the Trace_Pdu spec reads the captured bytes with the structural reader and evaluates the predicates (C2S)",
     "One-group-at-a-time variations around two base configurations: 7 AE-title shapes (1 char, 16 chars, padded, inner space, over 16 with padding, 17 chars, spaces only), 1/2/3/127/128/129 contexts in three shapes, maximum lengths 0/16382/2^32-1/1, all 32 subsets of extended-negotiation kinds, version name present/absent/16 chars, four acceptor support shapes (incl. role-based rejection): structure, counts, ids, UID/AE legality of every RQ and AC sent.",
-    "Trusted: EVT_DATA_SENT/RECV capture; configurations the API refuses are outside the quantifier; full product only sampled (thorough).", "§6 C12", "pdu")
+    "Also: where the context objects come from (fresh, reused from an earlier association with their IDs, new ones in front of reused ones, all the same ID, edited from a handler while the request is being made) and hand-built contexts lacking a syntax. Trusted: EVT_DATA_SENT/RECV capture; configurations the API refuses are outside the quantifier; full product only sampled (thorough).", "§6 C12", "pdu")
 
 CHECKS["C03"] = ("model_checking",
     "TLA+ Framing spec (peer writes in arbitrary pieces / closes after any byte, kernel hands over any part, reader collects header then body) model-checked by TLC for every interleaving; TLC's write patterns and close points, mapped class-preservingly onto real PDU lengths, plus every single cut / close offset, are played over TCP loopback to a real acceptor and a real requestor (S2C); the PDUs and FSM events pynetdicom reports are judged by the Trace_Framing spec (C2S)",
     "Small frames with up to 2 (3) cuts and every reader interleaving in TLC; on the real code: a stream of three P-DATA-TF PDUs (one C-ECHO-RQ in three command fragments) plus A-RELEASE-RQ, the A-ASSOCIATE-RQ, and the A-ASSOCIATE-AC towards a requestor: all single cuts, all close offsets, TLC's double-cut patterns, gaps of 3 ms and of 0.6-0.7 s (beyond connection_timeout, inside the protocol timeouts): PDUs delivered in order, each once, byte-identical; a close inside a PDU gives Evt17 and never Evt19.",
-    "Trusted: loopback TCP with TCP_NODELAY and pauses (the kernel may coalesce); PDU lengths up to a few hundred bytes.", "§6 C03", "framing")
+    "Also: a 7 kB P-DATA-TF (body longer than one 4096-byte socket read) cut / closed at the read-size boundaries, the stream over TLS (several PDUs in one TLS record), frames judged before the peer's next action (liveness C03_Prompt: a reader woken by arrivals only is refuted). Trusted: loopback TCP with TCP_NODELAY and pauses (the kernel may coalesce).", "§6 C03", "framing")
 
 CHECKS["C02"] = ("model_checking",
     "TLA+ PdataLimit spec (a received P-DATA-TF is bounded by the receiver's own Maximum Length, both roles, asymmetric announcements) and TLA+ Mutate spec over PduLayout (receive-path classification, conformant variants PS3.8 allows, systematic mutations) evaluated by TLC; every input is sent over TCP loopback to a real pynetdicom acceptor in the state where that PDU can arrive (S2C); escapes from provider/association threads, hangs, first FSM event, stability of decoded PDUs and acceptance of conformant variants are judged by the Trace_Bytes spec (C2S)",
@@ -118,7 +118,7 @@ CHECKS["C02"] = ("model_checking",
 CHECKS["C30"] = ("model_checking",
     "TLA+ StorePath spec (UID values as token sequences, POSIX resolution, Inside predicate); TLC enumerates the values; each is handled by the real qrscp and storescp handle_store in a scratch tree with canaries (S2C); every created/modified path is resolved and judged by the Trace_StorePath spec (C2S)",
     "All token sequences up to length 3 (4 thorough) over digits, '.', '..', '/', letters, backslash, the storage directory's own name with a suffix (a sibling), optionally with an absolute prefix, as SOP Instance UID (all) and as Modality / Patient ID / Study / Series Instance UID (hostile values; sampled in quick) of a C-STORE for a SOP class with and without a file-name prefix, handled by both applications; filesystem snapshot before/after; only files inside the storage directory or the database file may change.",
-    "Trusted: handlers called directly with an event built from the encoded/decoded dataset; POSIX only.", "§6 C30", "storepath")
+    "Also: the database pre-state (instance already managed, its file recorded outside the storage directory). Trusted: handlers called directly with an event built from the encoded/decoded dataset; POSIX only.", "§6 C30", "storepath")
 
 CHECKS["C25"] = ("model_checking",
     "TLA+ StorePipeline spec (encode, fragment, wire, reassemble in memory or temp file, access) whose configuration vectors TLC enumerates; each configuration is executed between two real AEs on loopback and the receiving side records every view the API offers (S2C); the Trace_Store spec reports the first view that differs from the original (C2S)",
